@@ -15,7 +15,7 @@ from __future__ import annotations
 import ast
 
 from sa.engine.cfg import CFG
-from sa.engine.index import AnalysisError, norm, own_nodes, parent, qualname
+from sa.engine.index import AnalysisError, norm, own_nodes, parent, qualname, last_attr
 
 BASE = "pynguin.assertion.mutation_analysis.operators.base"
 MUT = "pynguin.assertion.mutation_analysis.mutators"
@@ -83,6 +83,8 @@ def _tainted(fn, seed):
 
 def check(ctx) -> None:
     repo = ctx.repo
+    ctx.rule("C28.splice", "MUST-PASS: in both _generic_visit_* generators every path from the visit loop's header to its yield writes the mutated child into the parent first", floor=2)
+    _splice_before_yield(ctx, repo)
     ctx.rule("C28.restore", "PAIR-FINALLY: after a mutated child is spliced into the shared tree every path to any exit of the visiting generator (incl. GeneratorExit at the yield) passes the restoring write", floor=2)
     ctx.rule("C28.pure", "TAINT: no mutate_* visitor assigns, deletes or calls a mutating method through its `node` parameter or an alias of a part of it", floor=60)
     ctx.rule("C28.index-space", "a position bound by enumerate(E) subscript-stores only into the list E enumerates (itself or a plain copy): splice and restore hit the slot of the visited child", floor=2)
@@ -334,3 +336,32 @@ def _anc(n):
     while p is not None:
         yield p
         p = parent(p)
+
+
+def _splice_before_yield(ctx, repo) -> None:
+    """Before a mutant is handed out, the parent's field holds exactly the child that belongs to this mutant: every path
+    from the loop header of a _generic_visit_* generator to its yield passes the write of the field (a write that is
+    skipped when 'nothing changed' leaves the previous mutant's replacement spliced in)."""
+    from sa.engine.cfg import CFG
+
+    BASE = "pynguin.assertion.mutation_analysis.operators.base"
+    n = 0
+    for qn in ("MutationOperator._generic_visit_real_node", "MutationOperator._generic_visit_list"):
+        fn = repo.try_func(BASE, qn)
+        if fn is None:
+            raise AnalysisError(f"anchor vanished: {qn}")
+        ctx.analysed(fn)
+        cfg = CFG(fn)
+        loops = [f for f in own_nodes(fn) if isinstance(f, ast.For) and any(isinstance(c, ast.Call) and last_attr(c) == "visit" for c in ast.walk(f.iter))]
+        for lp in loops:
+            heads = cfg.nodes_of(lp)
+            yields = [nd.id for nd in cfg.nodes if nd.stmt is not None and nd.kind == "stmt" and any(isinstance(y, ast.Yield) for y in ast.walk(nd.stmt)) and any(nd.stmt is s or any(nd.stmt is x for x in ast.walk(s)) for s in lp.body)]
+            writes = {nd.id for nd in cfg.nodes if nd.stmt is not None and nd.kind == "stmt" and not isinstance(nd.stmt, (ast.If, ast.For, ast.While, ast.Try, ast.With)) and any((isinstance(c, ast.Call) and norm(c.func) == "setattr") or (isinstance(c, ast.Assign) and isinstance(c.targets[0], ast.Subscript)) for c in ast.walk(nd.stmt)) and any(nd.stmt is s or any(nd.stmt is x for x in ast.walk(s)) for s in lp.body)}
+            if not yields:
+                continue
+            start = [b for h in heads for b, lab in cfg.succ[h] if lab not in ("exc", "exit", "false")]
+            p = cfg.path(start, yields, avoid_nodes=writes, labels_excluded=("exc",))
+            n += 1
+            ctx.check("C28.splice", lp, p is None and bool(writes), f"{qn}: a mutant is yielded on a path that does not write the mutated child into the parent's field first: when the child itself was replaced by the previous mutant and the next mutant changes a descendant, the previous replacement is still spliced in - the mutant that is handed out is not the one that is reported (and not one of the full enumeration)", what=f"{qn}: field written before every yield", path=cfg.describe_path(p) if p else [], stmt=f"[{qn}] write before yield")
+    if n < 2:
+        raise AnalysisError(f"C28.splice: only {n} visit loops with a yield found (confirmed by reading: 2)")
